@@ -28,7 +28,8 @@ RULE = ("event sequences (8 quick / 14 thorough) over generated two-module progr
         '; rounds 7-9: memento functions re-bound to plain functions / clones / wrappers / other memento functions, a function with a declared dependency, several statements with all versions asked after each (variable to an opaque object and back, module alias in front of an undefined attribute, helper name to an array)'
         '; rounds 10-11: opaque -> describable values of the same type, opaque containers changed in place, helper names bound to functions of another package'
         '; round 13: half of the re-binding scenarios in a named cluster, the same-named variable of another module, a registry of memento functions'
-        '; round 14: a list bound by a module-level partial clone changed in place; the oracle process computes from scratch (generation bumped after the module ran)')
+        '; round 14: a list bound by a module-level partial clone changed in place; the oracle process computes from scratch (generation bumped after the module ran)'
+        '; round 15: an attribute that starts being served by a module __getattr__; event sequences judged against a from-scratch oracle')
 ASSUMPTIONS = ["a clone or an unregistered wrapper is judged only right after its creation (it is a run-time value, "
                "not program text)", "locked clusters are excluded, as the property says",
                "imports and aliases that copy a re-executed definition are re-executed as well, so that the "
